@@ -61,10 +61,24 @@ def detect(seed):
         return {'applies': True, 'exit': rc, 'hits': hits}
     finally:
         rm(d)
+def detectown(seed):
+    """run only the check of the seed's own property"""
+    prop = json.load(open(os.path.join(seed, 'meta.json')))['property']
+    d = worktree()
+    try:
+        rc, out = sh(f'git apply {os.path.abspath(seed)}/patch.diff', cwd=d)
+        if rc != 0:
+            return {'applies': False}
+        rc, out = sh(f'/verif/bin/sfcheck check -prop {prop} -tier quick -no-evidence -repo {d}')
+        rules = sorted({l.split()[2] for l in out.splitlines() if l.startswith('OBL violated') or l.startswith('OBL undecided')})
+        errs = [l for l in out.splitlines() if l.startswith('ERROR')]
+        return {'applies': True, 'property': prop, 'exit': rc, 'rules': rules, 'errors': errs}
+    finally:
+        rm(d)
 if __name__ == '__main__':
     mode = sys.argv[1]
     for seed in sys.argv[2:]:
         seed = seed.rstrip('/')
-        r = confirm(seed) if mode == 'confirm' else detect(seed)
+        r = confirm(seed) if mode == 'confirm' else detectown(seed) if mode == 'detectown' else detect(seed)
         print(json.dumps({'seed': seed, **r}))
         sys.stdout.flush()
